@@ -10,7 +10,7 @@
      v_cache  - (use_shared) built-in cursor shared by all screens (F15d, /repo commit 8f58d2d)
    The correspondence run executes the model with all four = true. *)
 From LV Require Import Cursor.CursorDefs Cursor.CursorProofs Cursor.CursorSession Cursor.CursorSessionProofs
-  Cursor.CursorMaskProofs Cursor.CursorShapeProofs Cursor.CursorColour Cursor.CursorAudit Cursor.CursorXFromRich Cursor.CursorSurvivors Gen.Consts_C15.
+  Cursor.CursorMaskProofs Cursor.CursorShapeProofs Cursor.CursorColour Cursor.CursorAudit Cursor.CursorXFromRich Cursor.CursorSurvivors Cursor.CursorReqClip Gen.Consts_C15.
 Local Open Scope Z_scope.
 
 (* ---------------------------------------------------------------- rfbShowCursor / rfbHideCursor *)
@@ -353,6 +353,62 @@ Theorem C15_inv_new_framebuffer_same_size : forall fixed fold fnew s cls f,
   Forall (Inv fixed fold s) cls ->
   Forall (Inv fixed fnew (fst (new_framebuffer fold fnew s cls f))) (snd (new_framebuffer fold fnew s cls f)).
 Proof. exact inv_new_framebuffer. Qed.
+
+(* ---------------------------------------------------------------- update region clipped to the request
+   (repair of C03's F22, notes/fix_C03_8.diff; variant `reqclip` of the correspondence run, chosen from the
+   source text).  send_update_r / pump_r / pump_rounds_r = the flow with the repair:
+       region sent = (modified /\ requested \/ cursor redraw) /\ requested, the remainder stays modified.
+   Every statement about the framebuffer and the client invariant carries over unchanged; CONVERGENCE now needs
+   the client to request the cursor area - every full-screen or covering request does (premise Rq below);
+   until then the area stays in modifiedRegion and the invariant says nothing false about it. *)
+Theorem C15_update_restores_fb_req_clip : forall fixed v_empty fmt s cl s' cl' o,
+  wf_fb (sfb s) -> wf_ocursor (scur s) ->
+  send_update_r fixed v_empty fmt s cl = Some (s', cl', o) -> sfb s' = sfb s.
+Proof. exact send_update_r_restores. Qed.
+
+Theorem C15_redraw_covers_req_clip : forall fixed v_empty fmt s cl s' cl' o,
+  wf_fb (sfb s) -> wf_ocursor (scur s) -> failnext cl = false ->
+  Inv fixed fmt s cl -> send_update_r fixed v_empty fmt s cl = Some (s', cl', o) ->
+  Inv fixed fmt s' cl'.
+Proof. exact inv_send_update_r. Qed.
+
+Theorem C15_update_any_outcome_req_clip : forall fixed v_empty fmt s cl s' cl' o,
+  wf_fb (sfb s) -> wf_ocursor (scur s) ->
+  Inv fixed fmt s cl -> send_update_r fixed v_empty fmt s cl = Some (s', cl', o) ->
+  AInv fixed fmt s' cl'.
+Proof. exact inv_send_update_r_alive. Qed.
+
+(* what stays modified after a sent update: the old remainder and the part of the cursor redraw outside the request *)
+Theorem C15_modified_after_update_req_clip : forall fixed v_empty fmt s cl s' cl' o,
+  send_update_r fixed v_empty fmt s cl = Some (s', cl', o) -> o_sent o = true ->
+  forall x y, modif cl' x y = rgn_sub (modif cl) (rgn_and (modif cl) (req cl)) x y || su_rest s cl x y.
+Proof. exact send_update_r_modif. Qed.
+
+Theorem C15_redraw_covers_all_clients_req_clip : forall fixed v_empty fmt cls s s' res,
+  wf_fb (sfb s) -> wf_ocursor (scur s) ->
+  Forall (AInv fixed fmt s) cls ->
+  pump_r fixed v_empty fmt s cls = Some (s', res) ->
+  sfb s' = sfb s /\ wf_ocursor (scur s') /\ ocursor_equiv fmt (scur s) (scur s') /\
+  Forall (AInv fixed fmt s') (map fst res).
+Proof. exact inv_pump_r_alive. Qed.
+
+Theorem C15_redraw_covers_with_hook_req_clip : forall fuel fixed v_empty fmt hook s cls outs s' cls' outs' fired,
+  wf_fb (sfb s) -> wf_ocursor (scur s) ->
+  (forall hk nc, hook = Some (hk, nc) -> wf_ocursor nc) ->
+  Forall (AInv fixed fmt s) cls ->
+  pump_rounds_r fuel fixed v_empty fmt hook s cls outs = Some (s', cls', outs', fired) ->
+  sfb s' = sfb s /\ wf_ocursor (scur s') /\ Forall (AInv fixed fmt s') cls'.
+Proof. exact ainv_pump_rounds_r. Qed.
+
+(* Rq: the request covers the whole screen, hence the cursor area *)
+Theorem C15_picture_converges_if_sent_req_clip : forall fixed v_empty fmt s cl s' cl' o,
+  wf_fb (sfb s) -> wf_ocursor (scur s) -> failnext cl = false ->
+  Inv fixed fmt s cl -> send_update_r fixed v_empty fmt s cl = Some (s', cl', o) ->
+  (forall x y, 0 <= x < fw (sfb s) -> 0 <= y < fh (sfb s) -> req cl x y = true) ->
+  o_sent o = true ->
+  (shape cl = false -> clx cl' = sx s' /\ cly cl' = sy s') /\
+  forall x y, fb_get (pic cl') x y = option_map (px_of fixed fmt s' cl' x y) (fb_get (sfb s') x y).
+Proof. exact picture_converges_r. Qed.
 
 (* ---------------------------------------------------------------- NOT PROVED - tested by the correspondence
    run and the Python oracle only (audit notes/audit_B.md, C15 items 3-11):
